@@ -16,7 +16,7 @@ EXTENDS Integers, Sequences, FiniteSets, TLC, TLCExt, Json, IOUtils
 D == INSTANCE Decoys WITH MaxLen <- 0, MaxLen2 <- 0, Alphabet <- {}, Enzymes <- {}, Reverses <- {}, Concats <- {},
         Renderings <- {}, Width <- 70, LemmaMaxLen <- 0,
         Mut_MoveLast <- FALSE, Mut_JoinNoNewline <- FALSE, Mut_NameWithDesc <- FALSE,
-        inp <- 0, pc <- 0, prots <- 0, pi <- 0, k <- 0, perms <- 0, cur <- 0, decoys <- 0, text <- 0, back <- 0,
+        inp <- 0, pc <- 0, prots <- 0, pi <- 0, k <- 0, sites <- 0, perms <- 0, cur <- 0, decoys <- 0, text <- 0, back <- 0,
         napply <- 0
 Traces == JsonDeserialize(IOEnv.TRACES_FILE)
 VARIABLE tid
